@@ -1,25 +1,56 @@
 """Property -> units / stand-ins / level table (mirrors DESIGN.md §1)."""
 
 PROPS = {
-    "C02": dict(units=["POWERS"], standin=False, level="proof",
-                explanation="Powers::insert representation invariant (no zero entry) and whole-view postcondition"),
+    "C01": dict(units=["RAT", "EVALOPS"], standin=True, level="proof",
+                explanation="16 Rational operator impls, recip, pow, eval::{add,sub,mul,div,pow} on plain numbers (exact field operations, unbounded pow loop) proved by Verus; the OPERATION fold / NUMBER / PERCENTAGE arms of eval() are a bounded stand-in"),
+    "C02": dict(units=["POWERS", "COMPOUND", "EVALOPS"], standin=True, level="proof",
+                explanation="Powers::insert representation invariant, base_units, Compound::factor <=> same dimensions, eval::{add,sub} verdict / error mapping / unit adoption proved by Verus; OP_CAST arm bounded"),
+    "C03": dict(units=["RAT", "COMPOUND", "TABLES"], standin=True, level="proof",
+                explanation="factor value law v' = v*scale(src)/scale(dst), apply_conversion, Rational::pow, prefix constants, conversion laws as lemmas; OP_CAST arm bounded"),
+    "C04": dict(units=["COMPOUND", "EVALOPS"], standin=True, level="proof",
+                explanation="Compound::mul / reconstruct / inner_match / pow preserve (value*scale, dims); eval::{mul,div,pow}; bases_match assumed (FnMut closure through Iterator::all)"),
+    "C05": dict(units=["TABLES"], standin=False, level="proof",
+                explanation="dimension closure and conversion fraction of each of the 78 derived units and the 21 prefix constants against standards.toml"),
+    "C10": dict(units=["RAT", "EVALOPS"], standin=True, level="proof",
+                explanation="Rational::{floor,ceil,round}, builtin::{one,floor,ceil,round} against floor/ceil/half-away-from-zero definitions; FN_CALL arm bounded"),
+    "C13": dict(units=["COMPOUND", "EVALOPS"], standin=True, level="proof",
+                explanation="field laws as lemmas over the proved postconditions of eval::{add,sub,mul,div}"),
 }
 
 COMMON_TRUST = [
     "Verus 0.2026.09.13 + bundled Z3, rustc 1.98.1; single-file mode (no linking): every dependency type is a shim with assumed contracts",
-    "extraction rules R1-R9 of DESIGN.md §4 (attribute stripping, debug_assert -> static obligation, break-value lowering, operator-call form, for-desugaring, outlining, closure lifting, nested-fn hoisting, associated-type spelling)",
+    "extraction rules of DESIGN.md §4: R1 attributes/doc comments stripped, visibility widened; R2 debug_assert -> static obligation; R3 break-value lowering; R4 `&a op &b` -> operator call; R5 for-desugaring; R6 outlining of iterator-adapter / fn-pointer expressions into assumed fns; R7 closure lifting; R8 nested fn hoisting; R9 trait-impl methods emitted as inherent methods / associated types spelled out; R10 type ascription; R11 fn renamed to dodge a Verus name clash",
+    "BigRational viewed as `real`, BigInt as `int` (every operation used is closed on Q); i32/u32/usize arithmetic keeps its overflow obligations (discharged under the stated bounds, never treated as mathematical)",
 ]
 
 SHIM_TRUST = {
-    "shims/btreemap.rs": "assumed contracts for std BTreeMap (view Map<K,V>, key-ordered entries(), entry/VacantEntry/OccupiedEntry prophecy-style, iter/into_iter/get/insert/len/is_empty/clear/clone)",
-    "shims/std_specs.rs": "assume_specification for Option::<&T>::copied",
+    "shims/btreemap.rs": "assumed contracts for std BTreeMap (view Map<K,V>, key-ordered entries(), entry/VacantEntry/OccupiedEntry prophecy-style, get/get_mut/insert/iter/into_iter/len/is_empty/clear/clone)",
+    "shims/std_specs.rs": "assume_specification for Option::<&T>::copied, i32::abs (requires > MIN), i32::signum",
     "shims/unit_types.rs": "DerivedVtable is opaque (fn pointers unsupported); key identity of Unit::Derived is spec equality, faithful because Derived compares by id and ids identify units (C17)",
+    "shims/base.rs": "num shim: ~70 assumed contracts for BigInt/BigRational (new requires denom != 0, exact field ops, recip requires != 0, trunc toward zero, round half away from zero, floor, ceil, Pow<i32> with reciprocal for negative exponents, numer/denom reduced with positive denominator, to_i32 = truncate-then-fit, From<u32/i32/u128>)",
+    "shims/vec_iter.rs": "by-value Vec iteration yields the elements in order",
+    "shims/unit_shim.rs": "ConversionMethods opaque; R6 outlines call_methods_to/from, call_vtable_powers (adds power*derived_dim, assumed-by-table: proved per closure in unit TABLES), Unit::conversion = table entry with non-zero fraction (assumed-by-table)",
+    "shims/syntree_span.rs": "syntree::Span<u32> as plain data; LookupError / ParseIntError / syntree::Error opaque",
+}
+
+ITEM_TRUST = {
+    "fn bases_match": "bases_match (FnMut closure through Iterator::all, outside Verus): assumed `Some(m)` => m has the sign of power, |m| <= |power|, every base of the unit is a key of names and m copies fit; Kani/bounded stand-in",
 }
 
 
-def trusted_base(prop, trusted_items, rules):
+def trusted_base(prop, trusted_items, rules, includes=()):
     out = list(COMMON_TRUST)
-    out += [f"{k}: {v}" for k, v in SHIM_TRUST.items()]
+    seen = set()
+    for inc in includes:
+        key = inc.split(" ")[0]
+        if key in SHIM_TRUST and key not in seen:
+            seen.add(key)
+            out.append(f"{key}: {SHIM_TRUST[key]}")
+        elif inc.endswith("in its own unit)") and inc not in seen:
+            seen.add(inc)
+            out.append(f"{inc}")
     for it in trusted_items:
-        out.append(f"assumed contract (external_body): {it['file']} :: {it['item']}")
+        for k, v in ITEM_TRUST.items():
+            if it["item"].endswith(k) and v not in out:
+                out.append(v)
     return out
